@@ -371,8 +371,8 @@ Section Compile.
       - destruct (merge_all (map fst pl)); reflexivity. }
     destruct fl as [[|x r]|].
     - cbn [bind fst snd]. rewrite andb_false_r. apply (Fin [] [] (Forall_nil _)).
-    - pose proof (pfiles_rel (i_files oc) Hoc (fuel_for t) [[s_topfile]] (map name_of_top_elem (x :: r)) [] nc_ok_nil) as R.
-      destruct (pfiles (fuel_for t) (i_files oc) [[s_topfile]] (map name_of_top_elem (x :: r)) []) as [[pl nc]|e]; cbn [bind fst snd].
+    - pose proof (pfiles_rel (i_files oc) Hoc (fuel_for t) (initial_parents V) (map name_of_top_elem (x :: r)) [] nc_ok_nil) as R.
+      destruct (pfiles (fuel_for t) (i_files oc) (initial_parents V) (map name_of_top_elem (x :: r)) []) as [[pl nc]|e]; cbn [bind fst snd].
       + destruct R as (E1 & _ & P). rewrite E1.
         destruct pl as [|q pl']; cbn [map].
         * destruct (empty_raises V); cbn [andb bind result_full]; [reflexivity|]. apply (Fin [] nc (Forall_nil _)).
@@ -413,8 +413,8 @@ Section Compile.
       - destruct (merge_all (map fst pl)); reflexivity. }
     destruct fl as [[|x r]|].
     - cbn [bind fst snd]. rewrite andb_false_r. apply (Fin [] [] (Forall_nil _)).
-    - pose proof (pfiles_rel (i_files oc) Hoc (fuel_for t) [[s_topfile]] (map name_of_top_elem (x :: r)) [] nc_ok_nil) as R.
-      destruct (pfiles (fuel_for t) (i_files oc) [[s_topfile]] (map name_of_top_elem (x :: r)) []) as [[pl nc]|e]; cbn [bind fst snd].
+    - pose proof (pfiles_rel (i_files oc) Hoc (fuel_for t) (initial_parents V) (map name_of_top_elem (x :: r)) [] nc_ok_nil) as R.
+      destruct (pfiles (fuel_for t) (i_files oc) (initial_parents V) (map name_of_top_elem (x :: r)) []) as [[pl nc]|e]; cbn [bind fst snd].
       + destruct R as (E1 & _ & P). rewrite E1.
         destruct pl as [|q pl']; cbn [map].
         * destruct (empty_raises V); cbn [andb bind result_data]; [reflexivity|]. apply (Fin [] nc (Forall_nil _)).
@@ -450,6 +450,9 @@ Proof.
   unfold fs_kind. destruct (find (fun e => name_eqb p (fst e)) t) as [e|] eqn:Ef; [|congruence].
   intros _. apply find_some in Ef as [Hin Hp]. apply name_eqb_eq in Hp. subst p. now apply in_map.
 Qed.
+
+Lemma NoDup_app_tail {A} (l1 l2 : list A) : NoDup (l1 ++ l2) -> NoDup l2.
+Proof. induction l1 as [|x r IH]; cbn [app]; [auto|]. intros Hn. inversion Hn; subst. auto. Qed.
 
 Lemma NoDup_app_snoc {A} (l : list A) x : NoDup l -> ~ In x l -> NoDup (l ++ [x]).
 Proof.
@@ -518,7 +521,19 @@ Section Terminates.
   Definition noof {A} (r : res A) : Prop := r <> Err OutOfFuel.
   Ltac carry X := let Eq := fresh "Eq" in intros Eq; apply X; injection Eq as ->; reflexivity.
   Definition pinv (parents : list name) : Prop :=
-    NoDup parents /\ exists m rest, parents = m :: rest /\ Forall resolvable rest.
+    NoDup parents /\ exists pre rest, parents = pre ++ rest /\ length pre <= 1 /\ Forall resolvable rest.
+
+  Lemma pinv_bound parents : pinv parents -> length parents <= 2 * length t + 1.
+  Proof.
+    intros (Hnd & pre & rest & -> & Hp & Hres). rewrite app_length.
+    pose proof (resolvable_bound rest (NoDup_app_tail _ _ Hnd) Hres). lia.
+  Qed.
+  Lemma pinv_snoc parents n : pinv parents -> ~ In n parents -> resolvable n -> pinv (parents ++ [n]).
+  Proof.
+    intros (Hnd & pre & rest & -> & Hp & Hres) Hn Hr. split; [now apply NoDup_app_snoc|].
+    exists pre, (rest ++ [n]). split; [now rewrite app_assoc|]. split; [assumption|].
+    apply Forall_app. split; [assumption | constructor; [assumption | constructor]].
+  Qed.
 
   Lemma wrap_rt_noof {A B} (r : res A) (f : A -> res B) : (forall a, noof (f a)) -> noof (bind (wrap_rt r) f).
   Proof. intros Hf. destruct r; cbn [wrap_rt bind]; [apply Hf | discriminate]. Qed.
@@ -558,8 +573,8 @@ Section Terminates.
   Lemma expand_noof : forall fuel parents fl, pinv parents -> Forall noof fl ->
     length parents + fuel >= 2 * length t + 2 -> noof (expand_spec fuel parents fl).
   Proof.
-    induction fuel as [|f IH]; intros parents fl (Hnd & m & rest & -> & Hres) Hfl Hlen.
-    - exfalso. inversion Hnd as [|? ? _ Hnd']; subst. pose proof (resolvable_bound rest Hnd' Hres). cbn [length] in Hlen. lia.
+    induction fuel as [|f IH]; intros parents fl Hpi Hfl Hlen.
+    - exfalso. pose proof (pinv_bound parents Hpi). lia.
     - cbn [Target.expand_spec].
       pose proof (resolve_all_noof fl Hfl) as Ra.
       destruct (resolve_all C t fl) as [qs|x] eqn:Er; cbn [bind]; [|carry Ra].
@@ -571,8 +586,8 @@ Section Terminates.
           destruct (resolve_all C t r) as [r'|x]; cbn [bind] in Er; [|discriminate].
           injection Er as <-. constructor; [now exists rn', p | now apply IHf]. }
       clear Er Ra. induction Hq as [|[[n rn] p] qs' Hq1 _ IHq]; cbn [sfile_list]; [discriminate|].
-      assert (S1 : noof (sfile V C H render_o yload t (expand_spec f) (m :: rest) (n, rn, p))).
-      { unfold Target.sfile. destruct (existsb (name_eqb n) (m :: rest)) eqn:Ex; [discriminate|].
+      assert (S1 : noof (sfile V C H render_o yload t (expand_spec f) parents (n, rn, p))).
+      { unfold Target.sfile. destruct (existsb (name_eqb n) parents) eqn:Ex; [discriminate|].
         unfold Target.spec_load.
         destruct (render_path C render_o t p) as [text|x]; cbn [wrap_rt bind]; [|discriminate].
         destruct (yload text) as [d|x] eqn:Ey; cbn [wrap_rt bind]; [|discriminate].
@@ -580,24 +595,22 @@ Section Terminates.
           assert (M : noof (match inc with
                             | Some iv => if truthy iv then
                                 bind (iter_val iv) (fun items => bind (map_res (resolve_rel rn) items) (fun names =>
-                                  expand_spec f ((m :: rest) ++ [n]) (map Ok names))) else Ok []
+                                  expand_spec f (parents ++ [n]) (map Ok names))) else Ok []
                             | None => Ok [] end)).
           { destruct inc as [iv|]; [|discriminate]. destruct (truthy iv); [|discriminate].
             destruct (iter_val iv) as [items|x] eqn:Ei; cbn [bind].
             - pose proof (map_res_resolve_rel_noof rn items) as Mr.
               destruct (map_res (resolve_rel rn) items) as [names|x]; cbn [bind]; [|carry Mr].
               apply IH.
-              + split.
-                * apply NoDup_app_snoc; [assumption|]. intros Hin.
-                  assert (existsb (name_eqb n) (m :: rest) = true); [|congruence].
-                  apply existsb_exists. exists n. split; [assumption | apply name_eqb_refl].
-                * exists m, (rest ++ [n]). split; [reflexivity|]. apply Forall_app. split; [assumption|]. constructor; [exact Hq1 | constructor].
+              + apply pinv_snoc; [assumption| |exact Hq1]. intros Hin.
+                assert (existsb (name_eqb n) parents = true); [|congruence].
+                apply existsb_exists. exists n. split; [assumption | apply name_eqb_refl].
               + apply Forall_forall. intros r Hr. apply in_map_iff in Hr as [x [<- _]]. discriminate.
               + rewrite app_length. cbn [length] in *. lia.
             - destruct iv; cbn in Ei; congruence. }
           destruct (match inc with Some iv => _ | None => _ end); cbn [bind]; [discriminate | carry M]. }
-      destruct (sfile V C H render_o yload t (expand_spec f) (m :: rest) (n, rn, p)); cbn [bind]; [|carry S1].
-      destruct (sfile_list (sfile V C H render_o yload t (expand_spec f)) (m :: rest) qs'); cbn [bind]; [discriminate | carry IHq].
+      destruct (sfile V C H render_o yload t (expand_spec f) parents (n, rn, p)); cbn [bind]; [|carry S1].
+      destruct (sfile_list (sfile V C H render_o yload t (expand_spec f)) parents qs'); cbn [bind]; [discriminate | carry IHq].
   Qed.
 End Terminates.
 
